@@ -17,7 +17,7 @@
    buffer sizes of the job serializer (0, 1, 3, 4, 5, 39-41, thousands): JobsTrav.tla drives
    Traversal.tla through a fixed list of programs on those graphs.
 """
-import json, os, math, itertools
+import json, os, math, itertools, time
 from collections import Counter
 import travcmp
 from vlib import Inconclusive, SPEC
@@ -331,10 +331,8 @@ def select_systematic(ctx, behs, pools, states, src, quick):
         rng.shuffle(rest)
         n2 = int(3000 * SCALE)
         out += [one(double[k]) for k in (top[:n2 * 2 // 3] + rest)[:n2]]
-        if SCALE < 1:
-            rng.shuffle(out)
-            out = out[:int(len(out) * SCALE)]
-        return out
+        rng.shuffle(out)
+        return out[:int(9000 * SCALE)]
     out = sample(single, 420, lambda k: k[0] == "curated") + sample(single, 120, lambda k: k[0] == "narrow2") \
         + sample(single, 110, lambda k: k[0] == "scaled") + sample(restart, 110)
     top = sorted(k for k in double if k[0] == 2)
@@ -454,7 +452,7 @@ def rows_vs_direct(rows, direct):
 
 def judge(pool, states, hist, obs):
     """-> None or (signature, what, step index): the FIRST answer of the real code that Jobs.tla does not allow"""
-    fin, restarted, info, remarked = {}, {}, {}, {}
+    fin, restarted, info, remarked, realids = {}, {}, {}, {}, set()
     for k, e in enumerate(hist):
         if k >= len(obs):
             raise Inconclusive("harness answered %d of %d calls" % (len(obs), len(hist)))
@@ -468,6 +466,7 @@ def judge(pool, states, hist, obs):
         after = " after-restart" if restarted.get(j) else ""
         if op == "submit":
             info[j] = pool[e["p"] - 1]
+            realids.add(o.get("id"))
             if o.get("err"):
                 return ("jobs submit well-typed-rejected", o["err"][:200], k)
             if o.get("dup_id"):
@@ -563,7 +562,9 @@ def judge(pool, states, hist, obs):
             q = pool[e["p"] - 1].prog
             for x in sorted(got - may):
                 if x.startswith("?"):
-                    return ("jobs search returns-unknown-or-foreign-graph-job", x, k)
+                    if x.split("/", 1)[-1] in realids:
+                        return ("jobs search returns-other-graph", "a job of %s for a search on g%s" % (x[1:].split("/")[0], e["g"]), k)
+                    return ("jobs search returns-unknown-job", x, k)
                 ent = info.get(int(x))
                 gone_now = any(h["op"] == "delete" and h["j"] == int(x) for h in hist[:k])
                 if gone_now:
@@ -823,7 +824,7 @@ def run(ctx):
     ctx.log("curated+scaled: star sizes %s, %d traversal states, %d pools" % (sizes, len(sts), ncur))
     camp = Campaign("jobs", graphs, states, pools, pb)
     # (c) behaviours generated by TLC from Jobs.tla over those pools
-    cap = 240 if quick else int(1500 * SCALE)
+    cap = 240 if quick else int(1200 * SCALE)
     behs, _ = gen_behaviours(ctx, pb.module(pools), num=1, depth=max(800, int(cap * 4.5)), timeout=1200, label="behaviours")
     chosen = pick_behaviours(ctx, behs, cap)
     allsys = gen_systematic(ctx, pb.module(pools))
@@ -834,10 +835,28 @@ def run(ctx):
     nrandom = len(chosen)
     chosen = chosen + sysb
     # (d) replay + judgement
-    light = [b for b in chosen if src[b["pool"] - 1] != "scaled"]      # family graphs only: the workers load nothing else
-    heavy = [b for b in chosen if src[b["pool"] - 1] == "scaled"]
-    total = run_campaign(ctx, camp, light, jobs=10, tag="fam", timeout=3000, per_request="300s", both=not quick, ngraphs=NFAMILY)
-    total.update(run_campaign(ctx, camp, heavy, jobs=6, tag="scaled", timeout=3000, per_request="600s", both=not quick))
+    # in seeded random order, chunk by chunk, inside a wall-clock budget (a guard for slow machines: the sample
+    # shrinks, the verdict does not change); the first chunk always runs
+    order = list(chosen)
+    ctx.rng.shuffle(order)
+    budget = float(os.environ.get("VERIF_C11_BUDGET", "0") or 0) or (200 if quick else 720)
+    size = 320 if quick else 1600
+    total, done, t0, last = Counter(), [], time.time(), 0.0
+    for lo in range(0, len(order), size):
+        if lo > 0 and (time.time() - t0) + last > budget:
+            ctx.notes.append("replay stopped by its time budget (%ds): %d of %d selected behaviours replayed" % (budget, len(done), len(order)))
+            break
+        t1 = time.time()
+        chunk = order[lo:lo + size]
+        light = [b for b in chunk if src[b["pool"] - 1] != "scaled"]      # family graphs only: the workers load nothing else
+        heavy = [b for b in chunk if src[b["pool"] - 1] == "scaled"]
+        total.update(run_campaign(ctx, camp, light, jobs=10, tag="fam%d" % lo, timeout=3000, per_request="300s", both=not quick, ngraphs=NFAMILY))
+        total.update(run_campaign(ctx, camp, heavy, jobs=6, tag="scaled%d" % lo, timeout=3000, per_request="600s", both=not quick))
+        done += chunk
+        last = time.time() - t1
+        ctx.log("replayed %d of %d behaviours (%.0fs)" % (len(done), len(order), time.time() - t0))
+    nsel = len(chosen)
+    chosen = done
     resumes, types, szs, nsearch = coverage_of(camp, chosen)
     for b in chosen[:3]:
         pool = pools[b["pool"] - 1]
@@ -846,7 +865,7 @@ def run(ctx):
     ctx.cov.update(evaluations=total["calls"], distinct_nontrivial=len(resumes) + len(types),
                    traces_validated_against_impl=total["runs_storage"] + total["runs_server"], exhaustive=False,
                    runs_by_binding=dict(storage=total["runs_storage"], server=total["runs_server"]),
-                   behaviours=len(chosen), random_behaviours=nrandom, systematic_resume_behaviours=len(sysb),
+                   behaviours=len(chosen), behaviours_selected=nsel, random_behaviours_selected=nrandom, systematic_resume_behaviours_selected=len(sysb),
                    systematic_resume_behaviours_generated=nsys, behaviours_by_source=dict(Counter(src[b["pool"] - 1] for b in chosen)),
                    calls_by_kind={k: v for k, v in total.items() if k not in ("calls", "diverging", "crash") and not k.startswith("runs_")},
                    stored_result_types=dict(types), stored_result_sizes=sorted(x for x in szs if x >= 0),
